@@ -104,6 +104,8 @@ class Case:
                 else:
                     p, h = item.split("=")
                     p = untilde(p)
+                    if h.startswith("!"):
+                        continue                 # a dangling symbolic link: nothing is there
                     if h.startswith("sparse:"):
                         self.files[p] = SparseZeros(int(h.split(":")[1]))
                     elif h == "|":
@@ -360,7 +362,9 @@ class C06(ServerProp):
                  # letters whose code point, cut to one byte, is '/' or '\\' (U+042F, U+015C, U+4E5C): they are letters, not separators
                  "sub\u042fb".encode(), "\u042fa".encode(), "sub\u015cb".encode(), "\u4e5clong".encode(),
                  # control characters are ordinary name bytes (an existing file, a new file, next to a printable look-alike)
-                 b"c\td", b"n\x1bw", b"sub/c\x7fd"]
+                 b"c\td", b"n\x1bw", b"sub/c\x7fd",
+                 # dangling symbolic links (read requests only: the name is missing)
+                 b"dangling", b"sub/dangling2"]
         optsets = [(), (("blksize", 8),), (("tsize", 7), ("windowsize", 2)), (("timeout", 1), ("blksize", 1428), ("foo", "1")),
                    # values the server cannot honour: a request that is refused anyway must still get its refusal
                    (("blksize", 7),), (("timeout", 0), ("blksize", 512)), (("windowsize", 0),), (("blksize", 65465), ("tsize", 1))]
@@ -369,6 +373,8 @@ class C06(ServerProp):
             for fl in flagsets:
                 for kind in ("rrq", "wrq"):
                     for name in names:
+                        if kind == "wrq" and b"dangling" in name:
+                            continue
                         opts = rng.choice(optsets)
                         split = "x" in fl
                         base = "send" if split else "srv"
@@ -378,6 +384,7 @@ class C06(ServerProp):
                               "%s/empty=-" % rbase, "%s/sub/empty=-" % rbase]
                         fs += ["%s/c~09d=%s" % (base, hx(b"tab-file")), "%s/c?d=%s" % (base, hx(b"question-mark-file")),
                                "%s/sub/c~7fd=%s" % (rbase, hx(b"del")), "%s/sub/c?d=%s" % (rbase, hx(b"qm"))]
+                        fs += ["%s/dangling=!nowhere" % base, "%s/sub/dangling2=!../gone/x" % base]
                         if split:
                             fs += ["send/empty=-"]
                         if split:
@@ -414,6 +421,12 @@ class C06(ServerProp):
         if r1.startswith("L error") or r1.startswith("T error"):
             if not r1.startswith("L ") or conv != "-" or before != after:
                 return ("refusal not from the listening port / with effect", "refusal-source")
+        if r1 == "- none" and conv == "-" and before != after:
+            # a request the server did not accept (it was not even answered: an option value it cannot honour) has no effect on any file -
+            # least of all on the completed upload that already has the name
+            gone = sorted(before - after)
+            return ("a request that was never accepted changed the file system (%s)" % ("removed/changed: " + ",".join(gone)[:120] if gone else "new entries"),
+                    "unaccepted-request-effect")
         if kind == "wrq" and exists_file and c.ow and conv.startswith("A"):
             data = upload_plan(recognised(opts))[3]
             want = "%s:%d:%d" % (enc(rel), len(data), fnv(data))
@@ -690,6 +703,14 @@ class C05(ServerProp):
                     probe = rq("rrq", b"f", (("blksize", 16),))
                     lines.append("storm %s %s srv/f=gen:40:9,srv/pipe=| %s %s" % (self.root(i), flags, probe.hex(), " ".join(batch)))
                     i += 1
+        # directed: a refusal the kernel cannot send: in single-port mode an accepted request with the largest block size widens the listener's
+        # receive buffer; a later request for a missing (or escaping) name of about 65 KB then earns an ERROR text beyond any UDP datagram
+        for flags in ["s", "sv"]:
+            for big in [b"n" * 65459, b"../" + b"m" * 65450, b"sub/" + b"k" * 65000]:
+                batch = [rq("rrq", b"f", (("blksize", 65464),)), rq("rrq", big, ()), rq("wrq", big, ())]
+                probe = rq("rrq", b"f", (("blksize", 16),))
+                lines.append("storm %s %s srv/f=gen:40:9,srv/sub/ %s %s" % (self.root(i), flags, probe.hex(), " ".join(hx(b) for b in batch)))
+                i += 1
         # directed: "from any number of sources" - a long run of accepted requests, each from its own endpoint (per-client state of
         # the listener - the single-port routing table - grows with every one of them), then the probe from yet another endpoint
         for flags in ["sm", "m", "smr"]:
@@ -911,6 +932,12 @@ class C12(ServerProp):
             for bsz in (65464, 32768, 16384):
                 lines.append("multi %s %s srv/huge=gen:140000:5 %s d:huge:%d:1 u:up1:%d:2:gen:%d:9" % (self.root(i), flags, rng.choice(["01", "0011", "10"]), bsz, bsz, 2 * bsz + 17))
                 i += 1
+        # directed (real time, 11 s): a client that is silent for more than ten seconds - well inside the retry budget of its worker (6 x 5 s) -
+        # while another client is served, and then goes on: its transfer is not disturbed by the other one (both port modes, both directions)
+        for flags in ["s", "-"]:
+            for first in [rq("rrq", b"big", ()), rq("wrq", b"upq", ())]:
+                lines.append("quiet %s %s srv/c=gen:16:3,srv/big=gen:3000:5 %s 10600 %s" % (self.root(i), flags, first.hex(), rq("rrq", b"c", (("blksize", 8),)).hex()))
+                i += 1
         # directed: one endpoint performs two transfers, one after the other, from the same port (a client need not change its port)
         seqs = ["d:c:8:1+d:big:512:1", "d:big:512:2+u:up1:512:1:gen:700:3", "u:up1:8:2:gen:30:1+d:c:8:1", "u:up1:512:1:gen:1500:4+u:up2:512:1:gen:600:5",
                 "d:missing:512:1+d:c:8:1", "d:c:8:1+d:c:8:1"]
@@ -930,16 +957,31 @@ class C12(ServerProp):
         return lines
 
     def nontrivial(self, line, impl):
-        return impl.startswith("c0=")
+        return impl.startswith("c0=") or impl.startswith("first=")
 
     def classify(self, line, impl, res):
         t = line.split(" ")
+        if t[0] == "quiet":
+            res.count("quiet-client:flags=" + t[2])
+            return
         res.count("K=%d" % (len(t) - 5))
         res.count("flags:" + t[2])
         for c in t[5:]:
             res.count("client:" + c[0] + ("+" if "+" in c else ""))
 
     def oracle(self, line, impl):
+        if line.startswith("quiet "):
+            if impl in ("abort", "panic") or not impl.startswith("first="):
+                return ("server died or no observation: " + impl[:60], "died")
+            kv = dict(x.split("=", 1) for x in impl.split(" ") if "=" in x)
+            if kv.get("first") not in ("data", "ack0"):
+                return ("the first transfer did not start (%s)" % impl, "quiet-start")
+            if kv.get("b") != "ok":
+                return ("the second client was not served while the first was silent (%s)" % impl, "quiet-other-not-served")
+            if kv.get("resumed") != "ok" or kv.get("done") != "ok":
+                return ("a transfer whose client was silent for 10.6 s (within its worker's retry budget) did not go on after another client had "
+                        "been served in the meantime (%s)" % impl, "quiet-transfer-disturbed")
+            return None
         if impl in ("abort", "panic") or not impl.startswith("c0="):
             return ("server died or no observation: " + impl[:60], "died")
         t = line.split(" ")
